@@ -176,6 +176,20 @@ def transformed_case(ctx, index, rng: random.Random):
         if tuple(p.axis_names) != tuple(h.axis_names[i] for i in axes):
             rec.fail(monitor="C09.chain", op=f"{kind}.projection{axes}", symptom="axis names of the projection are not those of the kept axes in original order", diff=["axis_names"],
                      detail={"got": p.axis_names})
+    # refusals hold for the transformed classes as well: repeated (index / name / both), unknown, empty
+    nm = list(h.axis_names)
+    a0 = rng.randrange(h.ndim)
+    bad = rng.choice([(a0, a0), (nm[a0], nm[a0]), (nm[a0], a0), (a0, nm[a0]), (h.ndim + 1,), ("nope",), (), tuple(range(h.ndim)) + (0,)])
+    rec.mon("C09.projection.refusal")
+    try:
+        with warnings.catch_warnings():
+            warnings.simplefilter("ignore")
+            with attach.quiet():
+                q = h.projection(*bad)
+        rec.fail(monitor="C09.projection.refusal", op=f"{kind}.projection{bad}", symptom="unknown / duplicate / empty axis list accepted by a transformed histogram", diff=["not_refused"],
+                 detail={"axes": [str(b) for b in bad], "result": type(q).__name__})
+    except Exception:
+        pass
     rec.case(["transformed", kind, axes, pts.tolist()], True, cls=f"transformed/{kind}")
 
 
